@@ -241,6 +241,20 @@ EXTRA5 = {
 }
 for k, v in EXTRA5.items():
     claimed[k]["text"] += v
+EXTRA6 = {
+ "C04": " Runs of characters whose case mapping changes their byte length in front of every structural token at every string member.",
+ "C05": " The parse histories also on one Reader value through its plain entry point.",
+ "C07": " One Writer value whose earlier destination fails after 0 / 1 / 40 / half / all but one bytes, then a good destination.",
+ "C08": " Identifiers that are FILE nodes in some argument lists and PACKAGE nodes elsewhere.",
+ "C12": " The receiver as its own argument (a.Union(a), a.Intersect(a)), also against a second result of the same call.",
+ "C13": " Source literals against their own case variants / padded forms at every string place.",
+ "C14": " Source literals against their own case variants / padded forms at every string place.",
+ "C15": " Every ordered target list with dangling targets before, between and after existing ones.",
+ "C16": " The matching rule under every hash algorithm number (declared and undeclared).",
+ "C17": " The registered drivers are wrapped (through the public registration API) so that the writer/driver boundaries are scheduling points; calls on one shared writer value with per-call options; a first-use reset (flags, counters, Once, maps to zero) distinct from the baseline reset.",
+}
+for k, v in EXTRA6.items():
+    claimed[k]["text"] += v
 
 checks = []
 for pid in all_ids:
